@@ -195,20 +195,31 @@ def run_history(case, level=0, steps=None, record=True):
 
 
 def classify_unexpected_raise(case, res):
-    """a step the generator meant to be valid raised: repeat it without argument checks; an inconsistent result
-    there is a property failure (reported by the parent when the model says the call is valid)"""
-    out = []
+    """a step the generator meant to be valid raised: repeat it without argument checks (level 3) and, for the steps
+    that have no model line (factorizations, ...), also at the default level 1, where the sanity checks of the result's
+    own legs are skipped: an INCONSISTENT result there means the exception at level 0 came from the result failing its
+    own sanity check (e.g. a stale `sorted` flag of a new leg) -> property failure. Steps with a model line are judged
+    by the parent (model says valid + inconsistent result at level 3)."""
     for k, (st, rec) in enumerate(zip(res['steps'], res['trace'])):
         if rec['status'] != 'error' or st.get('expect') == 'error':
             continue
         steps = [dict(s) for s in res['steps'][:k + 1]]
-        for s in steps:
-            s['_status'] = 'ok' if s is not steps[-1] and s.get('_status') == 'ok' else s.get('_status')
         steps[-1]['_status'] = 'ok'
         c = dict(case, init=res['init'])
         r3 = run_history(c, level=3, steps=steps)
         rec['lvl3'] = [f['what'] + ': ' + f['detail'] for f in r3['fails']][:2]
-    return out
+        if rec.get('line') is not None or res['fails']:
+            continue
+        bad = [x for x in rec['lvl3'] if x.startswith('level3-insane')]
+        if not bad:
+            r1 = run_history(c, level=1, steps=steps)
+            bad = [f['what'] + ': ' + f['detail'] for f in r1['fails'] if f['what'] == 'level3-insane']
+        if bad:
+            detail = bad[0].split(': ', 1)[1]
+            res['fails'].append(dict(what='result-fails-own-sanity.' + classify([detail]), step=k, op=st.get('op'), tag=st.get('tag'),
+                                     detail=f'raised {rec.get("msg")} at optimisation level 0; with the sanity checks '
+                                            f'switched off the call returns: {detail}'))
+            break
 
 
 def run_case(case):
